@@ -3,11 +3,13 @@
 Fault enumeration on the REAL library, complete over the generated validator inventory: for each of the seven formats a
 valid object is written to a real temporary path (and, separately, a path where no file exists); then, one at a time,
 every `_validate*` method of every object that a dump validates is made to raise, every validated field gets a really
-invalid value, and (for the JSON formats) the payload gets a value the encoder refuses.  After the failing `dump(path)`
+invalid value, (for the JSON formats) the payload gets a value the encoder refuses, and the object is put into REAL
+invalid states that make a section writer fail although no validator refuses (STATE_FAULTS: treeinfo without variants,
+unknown main_variant, Media with totaldiscs None, duplicate variant UID across levels, ...).  After the failing `dump(path)`
 the bytes/existence of the destination are compared with what was there before (tie O).
 
-Correspondence (tie C): the order of effects observed at run time (validate / _get_parser / serialize / open for
-writing / build_file, wrapped from outside) and the final file content are compared with the Lean model `run` executing
+Correspondence (tie C): the order of effects observed at run time (validate / _get_parser / serialize / memory buffer /
+build_file into the buffer or into the opened destination / open for writing / plain write, wrapped from outside) and the final file content are compared with the Lean model `run` executing
 the effect script that tools/gen_effects.py read from the source, fed with the independently observed outcomes of
 validate() and serialize() on the same object.
 """
@@ -80,14 +82,55 @@ PAYLOAD_FAULTS = {
 }
 
 
+def _dup_uid(o):
+    from productmd.composeinfo import Variant
+    top = sorted(o.variants.variants.values(), key=lambda v: v.uid)[0]
+    kid = sorted(top.variants.values(), key=lambda v: v.uid)[0]
+    v = Variant(o)
+    v.id = kid.uid.replace("-", "")
+    v.uid = kid.uid                       # same UID as the child one level down
+    v.name, v.type, v.arches = "dup", "variant", set(top.arches)
+    o.variants.add(v)
+
+
+def _first_variant(o):
+    return sorted(o.variants.variants.values(), key=lambda v: v.uid)[0]
+
+
+def _first_cell(o):
+    v = sorted(o.images)[0]
+    return o.images[v], sorted(o.images[v])[0]
+
+
+# REAL invalid states that make a SECTION WRITER fail although no validator refuses (-> optional dump keyword arguments)
+STATE_FAULTS = {
+    "treeinfo-no-variants": ("treeinfo", lambda o: o.variants.variants.clear()),
+    "treeinfo-main-variant-unknown": ("treeinfo", lambda o: {"main_variant": "NoSuchVariant"}),
+    "treeinfo-media-totaldiscs-none": ("treeinfo", lambda o: (setattr(o.media, "discnum", 1), setattr(o.media, "totaldiscs", None)) and None),
+    "treeinfo-platforms-none": ("treeinfo", lambda o: setattr(o.tree, "platforms", None)),
+    "treeinfo-variant-paths-none": ("treeinfo", lambda o: setattr(_first_variant(o), "paths", None)),
+    "composeinfo-duplicate-uid-across-levels": ("composeinfo", _dup_uid),
+    "composeinfo-arches-none": ("composeinfo", lambda o: setattr(_first_variant(o), "arches", None)),
+    "composeinfo-path-table-none": ("composeinfo", lambda o: setattr(_first_variant(o).paths, "os_tree", None)),
+    "images-cell-none": ("images", lambda o: _first_cell(o)[0].__setitem__(_first_cell(o)[1], None)),
+    "images-foreign-object-in-cell": ("images", lambda o: _first_cell(o)[0][_first_cell(o)[1]].add("not an image")),
+    "rpms-compose-section-missing": ("rpms", lambda o: setattr(o, "compose", None)),
+    "modules-compose-section-missing": ("modules", lambda o: setattr(o, "compose", None)),
+    "extra_files-header-missing": ("extra_files", lambda o: setattr(o, "header", None)),
+}
+
+
 class Observer(object):
-    """wraps (from outside) the five statements of dump on one object and the two ways of opening the destination"""
+    """wraps (from outside) the statements of dump on one object: validate / _get_parser / serialize / build_file (into the
+    opened destination = buildFile, into anything else = buildMem), the creation of a memory buffer by dump (newBuf), the two
+    ways of opening the destination (openW) and a plain write to it issued by dump itself (writeBuf)"""
     def __init__(self, obj, dest):
-        self.obj, self.dest, self.trace, self.depth, self.in_ofo = obj, dest, [], 0, 0
+        self.obj, self.dest, self.trace, self.depth, self.in_ofo, self.dest_fo = obj, dest, [], 0, 0, None
 
     def __enter__(self):
+        import sys, six
         import productmd.common as C
-        self.C = C
+        self.C, self.six = C, six
         o, me = self.obj, self
         self.saved = dict((n, o.__dict__.get(n, None)) for n in ("validate", "_get_parser", "serialize", "build_file"))
         cls = type(o)
@@ -110,11 +153,11 @@ class Observer(object):
             finally:
                 me.depth -= 1
 
-        def build_file(*a, **k):
-            me.trace.append("buildFile")
-            return cls.build_file(o, *a, **k)
+        def build_file(parser, f, *a, **k):
+            me.trace.append("buildFile" if (me.dest_fo is not None and f is me.dest_fo) else "buildMem")
+            return cls.build_file(o, parser, f, *a, **k)
         o.validate, o._get_parser, o.serialize, o.build_file = validate, _get_parser, serialize, build_file
-        self.orig_ofo, self.orig_open = C.open_file_obj, builtins.open
+        self.orig_ofo, self.orig_open, self.orig_sio = C.open_file_obj, builtins.open, six.StringIO
 
         def ofo(f, mode="r"):
             if f == me.dest and set(mode) & WRITE_MODES:
@@ -122,18 +165,46 @@ class Observer(object):
                 me.in_ofo += 1
             return me.orig_ofo(f, mode)
 
+        class Proxy(object):
+            def __init__(self_, fo):
+                self_._fo = fo
+
+            def write(self_, data):
+                fr = sys._getframe(1).f_code
+                if fr.co_name == "dump" and "productmd" in fr.co_filename:
+                    me.trace.append("writeBuf")
+                return self_._fo.write(data)
+
+            def __enter__(self_):
+                return self_
+
+            def __exit__(self_, *e):
+                self_._fo.close()
+                return False
+
+            def __getattr__(self_, name):
+                return getattr(self_._fo, name)
+
         def opn(f, mode="r", *a, **k):
             if f == me.dest and set(mode) & WRITE_MODES:
                 if me.in_ofo:
                     me.in_ofo -= 1           # the open performed by open_file_obj itself
                 else:
                     me.trace.append("openW")
+                me.dest_fo = Proxy(me.orig_open(f, mode, *a, **k))
+                return me.dest_fo
             return me.orig_open(f, mode, *a, **k)
-        C.open_file_obj, builtins.open = ofo, opn
+
+        def sio(*a, **k):
+            fr = sys._getframe(1).f_code
+            if fr.co_name == "dump" and "productmd" in fr.co_filename and me.depth == 0:
+                me.trace.append("newBuf")
+            return me.orig_sio(*a, **k)
+        C.open_file_obj, builtins.open, six.StringIO = ofo, opn, sio
         return self
 
     def __exit__(self, *exc):
-        self.C.open_file_obj, builtins.open = self.orig_ofo, self.orig_open
+        self.C.open_file_obj, builtins.open, self.six.StringIO = self.orig_ofo, self.orig_open, self.orig_sio
         for n, v in self.saved.items():
             if v is None:
                 self.obj.__dict__.pop(n, None)
@@ -157,7 +228,8 @@ class C18(Prop):
     exhaustive = True
     rule = ("complete fault enumeration on real files: 7 formats x {valid file already there, no file} x every _validate* of every "
             "object validated during a dump (injected ValueError/TypeError) + a really invalid value for every validated field + an "
-            "unencodable payload value; oracle: bytes/existence of the destination before vs after a dump that raised; "
+            "unencodable payload value + 13 real invalid states failing in a section writer (IndexError/KeyError/TypeError/"
+            "AttributeError/ValueError without a validator refusing); oracle: bytes/existence of the destination before vs after a dump that raised; "
             "correspondence: observed effect order, failing statement and final content vs Lean `run` on the generated script; "
             "non-trivial = the dump raised")
     assumptions = ["an unrecognised statement in dump (`unknown`) may fail but does not itself touch the file system (the real file is "
@@ -234,6 +306,10 @@ class C18(Prop):
                 if fmt in PAYLOAD_FAULTS:
                     for prior in ("valid", "none"):
                         yield {"op": "dump_fault", "args": {"fmt": fmt, "seed": seed, "prior": prior, "fault": {"kind": "payload"}}}
+                for name in sorted(STATE_FAULTS):
+                    if STATE_FAULTS[name][0] == fmt:
+                        for prior in ("valid", "none"):
+                            yield {"op": "dump_fault", "args": {"fmt": fmt, "seed": seed, "prior": prior, "fault": {"kind": "state", "name": name}}}
 
     # ------------------------------------------------------------------ real side
     def real(self, case):
@@ -255,6 +331,7 @@ class C18(Prop):
             before = read_state(dest)
             # ---- apply the fault
             applied = True
+            kw = {}
             if fault["kind"] == "inject":
                 inst, persistent = nth_instance(obj, fault["cls"], fault["nth"])
                 if inst is None:
@@ -277,6 +354,9 @@ class C18(Prop):
                     setattr(inst, fault["field"], fault["value"])
             elif fault["kind"] == "payload":
                 PAYLOAD_FAULTS[fmt](obj)
+            elif fault["kind"] == "state":
+                kw = STATE_FAULTS[fault["name"]][1](obj)
+                kw = kw if isinstance(kw, dict) else {}
             # ---- outcomes of the object's own steps, observed independently of dump (input of the model)
             outcomes = {}
             try:
@@ -288,7 +368,7 @@ class C18(Prop):
             outcomes["getParser"] = {"ok": sio.getvalue()}
             p = obj._get_parser()
             try:
-                obj.serialize(p)
+                obj.serialize(p, **kw)
                 sio = io.StringIO()
                 try:
                     obj.build_file(p, sio)
@@ -302,7 +382,7 @@ class C18(Prop):
             # ---- the dump itself, observed
             with Observer(obj, dest) as ob:
                 try:
-                    obj.dump(dest)
+                    obj.dump(dest, **kw)
                     result = "ok"
                 except Exception as e:
                     result = {"err": type(e).__name__, "eff": ob.trace[-1] if ob.trace else None}
@@ -353,7 +433,7 @@ class C18(Prop):
             return {"observed": {"error": r["result"]["err"], "failed_at": r["result"]["eff"], "destination_before": short(r["before"]),
                                  "destination_after": short(r["after"])},
                     "required": "destination unchanged (same bytes, or still absent) after a dump that raised",
-                    "kind": "encoder-failure" if r["result"]["eff"] == "buildFile" else "destination-damaged"}
+                    "kind": "encoder-failure" if case["args"]["fault"]["kind"] == "payload" else "destination-damaged"}
         return None
 
     def nontrivial(self, case, real_out):
@@ -388,6 +468,6 @@ PROP = C18()
 
 MANIFEST = dict(
     technique="Lean 4 proof over an effect-script interpreter (abstract file system; script regenerated from the AST of every dump method) + decide on the generated scripts; complete fault enumeration on real files; run-time effect order vs script",
-    text="Theorem C18_general: for ANY effect script in which nothing fallible follows open-for-write, any object (arbitrary outcome of validate/_get_parser/serialize = any failure point, nested or top-level) and any file system, a dump that fails anywhere except inside build_file's encoder leaves the whole file system unchanged. C18_here/C18_every_dump/C18_shape (decide on the scripts read from the source on every run): MetadataBase.dump and TreeInfo.dump have that shape (indeed the standard shape validate* getParser validate* serialize validate* openW buildFile), and each of the seven formats runs one of them. C18_nested: for every script of the standard shape, a refusing validator anywhere in the section tree makes dump fail with that error before anything is opened; C18_success: otherwise exactly the serialised text is written. C18_counterexample: the pre-fix order truncates. C18_encoder_failure_not_covered: a json encoder failure inside build_file happens after the open (known finding F19).",
+    text="Theorem C18_general: for ANY effect script in which nothing that runs code of the object (validators, section writers, the encoder of build_file, unrecognised statements) follows open-for-write, any object (arbitrary outcome of every step = any failure point) and any file system, a dump that fails anywhere except in the final plain write leaves the whole file system unchanged. C18_here/C18_every_dump/C18_shape (decide on the scripts read from the source on every run): MetadataBase.dump and TreeInfo.dump have the standard shape validate* getParser validate* serialize validate* newBuf buildMem openW writeBuf, and each of the seven formats runs one of them. C18_standard/C18_dump: for that shape EVERY failure, without exception, leaves the file system unchanged. C18_nested: a refusing validator anywhere in the section tree makes dump fail with that error before anything is opened; C18_success: otherwise exactly the serialised text is written; C18_encoder_failure_covered: an encoder failure happens in memory, destination untouched. C18_counterexample (order before F2) and C18_preF19_witness (encoder on the opened file) exhibit the damage of the two earlier orders.",
     note="The with-block/open semantics (truncate at once, partial content flushed) are modelled and compared with real files on every case. Statements outside the dump idiom become `unknown` (fallible, assumed not to touch the file system). HTTP/file-object destinations are outside the property.",
     ref="7/C18")
